@@ -208,9 +208,53 @@ def rfa_params(draw, name, n, exp_lo=0.02, smooth_default=False, default_prob=5,
     return kw
 
 
+_WINDOW_OVERRIDE = [None]
+
+
 def effective_a(kw, n):
+    if _WINDOW_OVERRIDE[0] is not None:
+        return _WINDOW_OVERRIDE[0]
     a = kw.get("a")
     if a is None:
         a = kw.get("alpha", 1.0) * n
     a = int(a)
     return max(a, 2)
+
+
+def window_candidates(kw, n):
+    """The transition window in samples.  An explicit `a`, or a product alpha*n that is an integer, leaves no choice.
+    For a fractional product the documentation only says "a = alpha * n": truncation (what the code does, listed
+    first), rounding to nearest and rounding up are all readings of it."""
+    import math
+    if kw.get("a") is not None:
+        return [max(int(kw["a"]), 2)]
+    p = kw.get("alpha", 1.0) * n
+    if abs(p - round(p)) <= 1e-9 * max(1.0, abs(p)) and int(p) == round(p):
+        return [max(int(p), 2)]
+    out = []
+    for v in (int(p), int(round(p)), int(math.ceil(p))):
+        v = max(v, 2)
+        if v not in out:
+            out.append(v)
+    return out
+
+
+def with_window_candidates(body):
+    """runs a check body once per admissible reading of the window size; it holds if it holds for one of them
+    (the first reading - truncation - is the one reported when none fits)"""
+    from twv.runner import Violation
+
+    def wrapped(ctx, case):
+        first = None
+        for a in window_candidates(case["kw"], case["n"]):
+            _WINDOW_OVERRIDE[0] = a
+            try:
+                return body(ctx, case)
+            except Violation as v:
+                if first is None:
+                    first = v
+            finally:
+                _WINDOW_OVERRIDE[0] = None
+        raise first
+    wrapped.__name__ = getattr(body, "__name__", "body")
+    return wrapped
